@@ -82,7 +82,7 @@ def mutate(rng, boundary, body):
 JSON_POOL = [b'{}', b'{"a": 1}', b'{"a": {"b": [1, 2]}}', b'[]', b'[1]', b'1', b'0', b'"s"', b'null', b'true', b'false', b'',
              b' ', b'{', b'{"a"}', b'{"a": }', b'nul', b'\xff', b'{"a": "\xff"}', b'\xef\xbb\xbf{}', b'\xff\xfe{\x00}\x00',
              b'{"a": 1} x', b'NaN', b'[' * 3000, b'[' * 3000 + b']' * 3000, b'{"a":' * 2000, b'{"\xc3\xa9": "\xe4\xb8\xad"}', b'1e999',
-             b'{"a": 1, "a": 2}', b'""', b'[{}]']
+             b'{"a": 1, "a": 2}', b'""', b'[{}]', b'1' * 5000, b'[-' + b'9' * 4400 + b']', b'{"n": ' + b'7' * 6000 + b'}']
 URL_POOL = [b'', b'a=1', b'a=1&b=2', b'a', b'&&', b'=', b'a=%zz', b'%', b'a=%C3%A9', b'a=\xff', b'a+b=c+d', b'a=1&a=2', b'\x00=\x00',
             b'a=' + b'x' * 50, b';', b'a=1;b=2', b'%u1234=1', b'a%3Db=c%26d']
 
